@@ -13,7 +13,8 @@ Import ListNotations.
 Open Scope Z_scope.
 
 (* 1. "An optional column or field that is absent in one block ... never inherits a value from an
-      earlier block": for EVERY message tree (valid encoding or not), every configuration and
+      earlier block": for EVERY message tree (valid encoding or not; about the implementation on
+      well-typed trees only, see Pbf/Tree.v: protoscan checks no wire types), every configuration and
       every two incoming decoder states (whatever earlier blocks left in the cached iterators,
       string table and block parameters), the outcome of decoding the block — the objects, or the
       error class, or the panic — is the same.  Unbounded: no two-block test, any history. *)
@@ -45,6 +46,27 @@ Theorem C01_decode_encode_block : forall b,
   forall st, scan_result cfg_all st (encode_block b) = Ok (elements b).
 Proof. exact decode_encode_block. Qed.
 Print Assumptions C01_decode_encode_block.
+
+(* 3a. THE DOMAIN valid_block AND THE FORMAT.  valid_block is "valid with respect to the format"
+       (format_valid_block) minus ONE class of items: plain (non-dense) Node messages, field 1 of a
+       PrimitiveGroup.  On that class the full statement of theorem 3 is FALSE of the faithful model
+       and of the implementation (replayed; known finding "plain-node-group" in
+       known_findings.d/C01.json; the harness assigns the class from the input alone: "a
+       PrimitiveGroup carries field 1"): the decoder answers every such block, under every
+       configuration and from every state, with the error "plain (non-dense) nodes are not
+       supported" although the block encodes a node.  FULL STATEMENT (false):
+         forall b, format_valid_block b = true -> forall st, scan_result cfg_all st (encode_block b) = Ok (elements b). *)
+Theorem C01_valid_block_is_format_valid_without_plain_nodes : forall b,
+  valid_block b = (format_valid_block b && no_plain_nodes b).
+Proof. exact valid_block_is_format_valid_without_plain_nodes. Qed.
+Print Assumptions C01_valid_block_is_format_valid_without_plain_nodes.
+
+Theorem C01_plain_nodes_refuted :
+  format_valid_block plain_witness = true
+  /\ elements plain_witness = [ONode (mkNode 7 1000 2000 (mkInfo 2 None 0 0 [] true) [([107], [118])])]
+  /\ forall c st, scan_result c st (encode_block plain_witness) = Err E_PLAIN.
+Proof. exact plain_nodes_refuted. Qed.
+Print Assumptions C01_plain_nodes_refuted.
 
 (* the block-level composition for arbitrary items (dense included): if every item decodes to its
    meaning from any state with the block's parameters, the block does *)
@@ -115,7 +137,9 @@ Print Assumptions C01_scan_file_any_schedule.
 
 
 (* 6. the block decoder never panics, for every message tree, configuration and decoder state
-      (used by C06: a panic in a worker goroutine would be a process crash) *)
+      (used by C06: a panic in a worker goroutine would be a process crash).  A statement about the
+      model; it transfers to the implementation for well-typed trees (Pbf/Tree.v) — what protoscan
+      does with a known field of another wire type is not modelled here. *)
 Theorem C01_block_decoder_never_panics : forall c st m, scan_block c st m <> Panic.
 Proof. exact scan_block_never_panics. Qed.
 Print Assumptions C01_block_decoder_never_panics.
@@ -133,6 +157,23 @@ Theorem C01_field_order_irrelevant : forall b m,
   forall c st, scan_result c st m = Ok (filter (keeps c) (elements b)).
 Proof. exact field_order_irrelevant. Qed.
 Print Assumptions C01_field_order_irrelevant.
+
+(* 7a. WHAT canon_block DOES NOT IDENTIFY.  The protobuf encoding rules also allow a packed repeated
+       field to be written as several chunks (same field number more than once; a parser must
+       concatenate them).  mcanon_block is canon_block followed by that concatenation.  With
+       mcanon_block in place of canon_block theorem 7 is FALSE of the faithful model and of the
+       implementation (replayed; known finding "packed-column-split", class assigned from the input
+       alone: "some packed column of some message occurs more than once"): the decoder keeps only the
+       LAST chunk and silently returns a shorter way.  FULL STATEMENT (false):
+         forall b m, valid_block b = true -> mcanon_block m = encode_block b ->
+           forall c st, scan_result c st m = Ok (filter (keeps c) (elements b)). *)
+Theorem C01_split_packed_refuted :
+  valid_block split_witness_block = true
+  /\ mcanon_block split_witness_tree = encode_block split_witness_block
+  /\ elements split_witness_block = [OWay (mkWay 7 info0 [] [mkWN 1 0 0; mkWN 2 0 0])]
+  /\ forall st, scan_result cfg_all st split_witness_tree = Ok [OWay (mkWay 7 info0 [] [mkWN 1 0 0])].
+Proof. exact split_packed_refuted. Qed.
+Print Assumptions C01_split_packed_refuted.
 
 (* non-vacuity: the witness block with parameters first, groups reversed inside their messages,
    unknown fields 99 / 1000 at three levels *)
